@@ -40,8 +40,11 @@ pub static SPEC: Spec = Spec {
         "cleared_block_requested",
         "sessions_completed",
         "big_log_session",
+        "second_hop_sessions",
+        "second_hop_upgrade_served:live",
+        "second_hop_upgrade_served:reopened",
     ],
-    rule: "a case = one replication session: writer history (appends, batches, clears) in 1-4 growth rounds interleaved with well-formed replica requests (W1-W5 of DESIGN.md 2.4: upgrade iff behind, block/hash index inside the target, node counts from the replica's own missing_nodes, optional in-range seek) and replica reopens; oracle after EVERY round: create_proof = Ok(Some) (Ok(None) iff the block is cleared on the writer), verify_and_apply_proof = Ok(true), replica observation (info, has, get of every index) equals the replica model (holds exactly the received blocks, byte-identical to the writer's; length/byte length = writer's at last upgrade); at the end 'fetch everything missing' must converge and survive a reopen; bounded-exhaustive: all request sequences of length 3 (quick) / 4 (thorough) over {block i, nameable node j, seek 0/mid/end} for logs of 1..5 blocks x every first-upgrade length; random sessions up to 300 blocks and one 70000-block log; distinct = session script hash; non-trivial = at least one accepted proof",
+    rule: "a case = one replication session: writer history (appends, batches, clears) in 1-4 growth rounds interleaved with well-formed replica requests (W1-W5 of DESIGN.md 2.4: upgrade iff behind, block/hash index inside the target, node counts from the replica's own missing_nodes, optional in-range seek) and replica reopens; oracle after EVERY round: create_proof = Ok(Some) (Ok(None) iff the block is cleared on the writer), verify_and_apply_proof = Ok(true), replica observation (info, has, get of every index) equals the replica model (holds exactly the received blocks, byte-identical to the writer's; length/byte length = writer's at last upgrade); at the end 'fetch everything missing' must converge and survive a reopen, and - when the replica then holds the whole log - a fresh second replica must be able to replicate from the first one alone under the same oracle (second hop; served by the live instance or after a reopen); bounded-exhaustive: all request sequences of length 3 (quick) / 4 (thorough) over {block i, nameable node j, seek 0/mid/end} for logs of 1..5 blocks x every first-upgrade length; random sessions up to 300 blocks and one 70000-block log; distinct = session script hash; non-trivial = at least one accepted proof",
     assumptions: &[
         "well-formed request = W1-W5 (hash nodes straddling the replica length and seek+block inside the upgraded range are excluded: the scheme has no defined answer; C09 sends them)",
     ],
@@ -144,9 +147,58 @@ impl Session {
         let n = self.pair.complete()?;
         ctx.add("completion_rounds", n);
         self.pair.replica.check(CMP_HAS | CMP_CONTIG, 400, "after completion")?;
+        let h = crate::rng::fnv(serde_json::to_string(&self.script).unwrap().as_bytes());
+        if h % 3 != 0 {
+            self.second_hop(ctx, h, "live")?;
+        }
         self.pair.replica.reopen()?;
         self.pair.replica.check(CMP_HAS, 400, "after completion + reopen")?;
+        if h % 3 == 0 {
+            self.second_hop(ctx, h, "reopened")?;
+        }
         ctx.count("sessions_completed");
+        Ok(())
+    }
+    /// Second hop: a replica that holds every block of the log is itself an honest source. A
+    /// fresh replica replicates from it alone (random well-formed requests, then completion);
+    /// the same oracle applies with the first replica in the writer's place. `when` = whether
+    /// the serving replica is the live instance (whose last accepted proof usually carried no
+    /// upgrade) or was closed and reopened after completion.
+    fn second_hop(&mut self, ctx: &mut Ctx, h: u64, when: &str) -> Result<(), Fail> {
+        let len = self.pair.replica.model.length();
+        if len == 0 || len > 48 || (0..len).any(|i| self.pair.replica.model.get(i).is_none()) {
+            return Ok(()); // not a full copy (the writer cleared blocks) or too big for every session
+        }
+        let mut r = Rng::new(h ^ 0x5EC0_4D40);
+        let tag = |mut f: Fail| {
+            f.sig = format!("second-hop:{when}:{}", f.sig);
+            f.detail = format!("served by the converged first replica ({when}): {}", f.detail);
+            f
+        };
+        let mut r2 = repl::Replica::create(&self.pair.writer.key, self.pair.replica.cache).map_err(tag)?;
+        let src = &mut self.pair.replica;
+        let nreq = 1 + r.below(4);
+        for _ in 0..nreq {
+            let rl = r2.model.length();
+            let p = repl::random_plan(&mut r, rl, len, &src.model, &r2.model);
+            if p.block.is_none() && p.hash.is_none() && p.seek.is_none() && p.upgrade.is_none() {
+                continue;
+            }
+            let shape = repl::shape(&p, rl, len);
+            repl::round_from(src.core.as_mut().unwrap(), &src.model, &mut r2, &p).map_err(|mut f| {
+                f.sig = format!("{}|{}", f.sig, shape);
+                f.detail = format!("plan {:?}: {}", p, f.detail);
+                tag(f)
+            })?;
+            ctx.count("second_hop_proofs");
+            if p.upgrade.is_some() {
+                ctx.count(&format!("second_hop_upgrade_served:{when}"));
+            }
+            r2.check(CMP_HAS, 400, "second hop").map_err(tag)?;
+        }
+        repl::complete_from(src.core.as_mut().unwrap(), &src.model, &mut r2).map_err(tag)?;
+        r2.check(CMP_HAS | CMP_CONTIG, 400, "second hop after completion").map_err(tag)?;
+        ctx.count("second_hop_sessions");
         Ok(())
     }
 }
